@@ -358,6 +358,21 @@ func c13Run(c *core.Ctx, idx int) {
 		}
 		lines = util.Shuffle(c.Rng, lines)
 	}
+	if c.Rng.Intn(5) == 0 {
+		// A list without a single rule that looks at the client or the record
+		// type (what an engine may do for such lists is a configuration of its
+		// own).
+		var plain []string
+		for _, l := range lines {
+			if !strings.Contains(l, "client=") && !strings.Contains(l, "ctag=") && !strings.Contains(l, "dnstype=") {
+				plain = append(plain, l)
+			}
+		}
+		if len(plain) >= 5 {
+			lines = plain
+			c.Event("histories_over_lists_without_per_client_rules", 1)
+		}
+	}
 	lookalikes := c.Rng.Intn(4) == 0
 	if lookalikes {
 		// $domain lists of four and more entries, asked from the listed sites,
